@@ -862,6 +862,8 @@ class Exec:
                     v = self.wrap(self.to_z3(v, lt), lt)
                 elif lt is not None and isinstance(v, V) and isinstance(v.ty, Opt) and not isinstance(lt, Opt) and self.depth == 0:
                     v = self.unwrap(v, line)
+                elif lt is not None and isinstance(v, C) and isinstance(lt, SetOf) and isinstance(v.ty, SetOf) and getattr(lt, 'dups_ok', False) and self.depth == 0:
+                    v = C(v.loc, lt)
                 self.st.env[tgt.id] = v
         elif isinstance(tgt, (ast.Tuple, ast.List)):
             parts = self.unpack(v, len(tgt.elts), line)
